@@ -182,9 +182,25 @@ func genC03(seed uint64, run int, tier string) Scenario {
 		sc.Ops = append(sc.Ops, op)
 		sc.Server.Replies = append(sc.Server.Replies, peer.NCReply{Mode: "now", Payload: `<rpc-reply xmlns="urn:ietf:params:xml:ns:netconf:base:1.0" message-id="{MID}"><rpc-error><error-type>application</error-type><error-tag>operation-failed</error-tag><error-severity>error</error-severity></rpc-error></rpc-reply>`})
 	}
+	nreq := len(sc.Ops)
 	sc.Ops = append(sc.Ops, NCOp{Kind: "close"})
 	sc.Class = "encode/" + ver
 	sc.fitTimeouts()
+	if r.IntN(8) == 0 && nreq >= 2 {
+		// one write of one request (not the last one) is taken by the transport at once but
+		// returns only after more than that operation's timeout: the caller may sit it out or
+		// give up with a timeout error, what goes over the wire stays a sequence of whole messages
+		per := 2
+		if ver == "1.1" {
+			per = 3
+		}
+		j := r.IntN(nreq - 1)
+		sc.Ops[j].TimeoutUS = sc.ReadDelayUS * int64(between(r, 200, 400))
+		sc.TimeoutOpsUS += 2 * sc.Ops[j].TimeoutUS
+		sc.F.WriteSlowAt = 2 + per*j + 1 + r.IntN(per)
+		sc.F.WriteSlowNS = int64(Micro(sc.Ops[j].TimeoutUS)) * int64(between(r, 12, 30)) / 10
+		sc.Class += "/slow-write"
+	}
 
 	return sc
 }
@@ -344,6 +360,21 @@ func runC03(env *Env, s Scenario) {
 			reqRecs = append(reqRecs, &nr.Recs[j])
 		}
 	}
+	// a request whose write outlasted its timeout may have been given up with a timeout error
+	gaveUp := -1
+	if sc.F.WriteSlowAt > 0 && nr.Tr.Faults()["write-slow"] > 0 {
+		env.Fault("write-slow", 1)
+		at := nr.Tr.WriteTime(sc.F.WriteSlowAt - 1)
+		for j := range nr.Recs {
+			if rec := &nr.Recs[j]; rec.ReqIndex >= 0 && rec.Start <= at && at <= rec.End && rec.Err != nil && rec.Class == "timeout" {
+				gaveUp = j
+				env.Probe("slow-write-given-up-with-a-timeout")
+			}
+		}
+		if gaveUp < 0 {
+			env.Probe("slow-write-sat-out")
+		}
+	}
 	if len(msgs) != len(reqRecs) {
 		env.Fail("request-count", "", "%d requests were made, the strict decoder finds %d messages", len(reqRecs), len(msgs))
 
@@ -358,6 +389,11 @@ func runC03(env *Env, s Scenario) {
 		}
 		decoded := msgs[k]
 		k++
+		if j == gaveUp {
+			// (its message is on the wire whole -- the count above holds either way -- but there
+			// is no response to compare it with)
+			continue
+		}
 		if strings.Contains(op.B, "<pad>") {
 			switch {
 			case len(decoded)%1024 == 0:
